@@ -23,23 +23,29 @@ pub mod other {
         pub m: super::Mode,
     }
 }
-macro_rules! twins {
-    ($a:ident, $b:ident, $t1:ty, $t2:ty) => {
-        #[derive(Savefile, Debug, PartialEq, Clone, Copy)]
-        #[repr(u8)]
-        pub enum $a {
-            Tagged($t1, $t2),
-            Plain($t1, $t1),
-        }
-        #[derive(Savefile, Debug, PartialEq, Clone, Copy)]
-        pub enum $b {
-            Tagged($t1, $t2),
-            Plain($t1, $t1),
-        }
-    };
+// (written out, not produced by a macro: a `$t:ty` fragment reaches the derive wrapped in an invisible group)
+#[derive(Savefile, Debug, PartialEq, Clone, Copy)]
+#[repr(u8)]
+pub enum Outer {
+    Tagged(Wrap<u8>, Wrap<Mode>),
+    Plain(Wrap<u8>, Wrap<u8>),
 }
-twins!(Outer, OuterTwin, Wrap<u8>, Wrap<Mode>);
-twins!(Outer2, Outer2Twin, Wrap<u8>, other::Wrap);
+#[derive(Savefile, Debug, PartialEq, Clone, Copy)]
+pub enum OuterTwin {
+    Tagged(Wrap<u8>, Wrap<Mode>),
+    Plain(Wrap<u8>, Wrap<u8>),
+}
+#[derive(Savefile, Debug, PartialEq, Clone, Copy)]
+#[repr(u8)]
+pub enum Outer2 {
+    Tagged(Wrap<u8>, other::Wrap),
+    Plain(Wrap<u8>, Wrap<u8>),
+}
+#[derive(Savefile, Debug, PartialEq, Clone, Copy)]
+pub enum Outer2Twin {
+    Tagged(Wrap<u8>, other::Wrap),
+    Plain(Wrap<u8>, Wrap<u8>),
+}
 #[derive(Savefile, Debug, PartialEq, Clone, Copy)]
 #[repr(C)]
 pub struct Pair {
